@@ -317,6 +317,22 @@ func (w *CliWorld) checkRelay(final bool) {
 		}
 		lastIdx[in.Peer] = idx
 	}
+	// a read deadline that has passed fails every ReadFrom, also one that finds a datagram waiting
+	for _, c := range w.calls {
+		if c.Kind != "readfrom" || !c.Done || c.Err != nil || c.marked || stalled || c.TEnd != c.TStart {
+			continue
+		}
+		cur := int64(-1)
+		for _, d := range w.deadlines {
+			if d.Set < c.TStart {
+				cur = d.At
+			}
+		}
+		if cur >= 0 && cur < c.TStart && !(w.relayClosed && w.relayClosedAt <= c.TStart) {
+			c.mark()
+			w.viol("C13", "deadline-ignored", kv("how", "expired-returns-data"), "ReadFrom called at %d returned a datagram although the read deadline had passed at %d", c.TStart, cur)
+		}
+	}
 	// blocked readers: deadline and Close must unblock them at that very instant
 	for _, c := range w.calls {
 		if c.Kind != "readfrom" || c.marked {
